@@ -44,6 +44,10 @@ class FuncInfo:
         self.qualname = qualname  # e.g. pregex.core.pre::Pregex.exactly
         self.is_static = is_static
         self.outer = outer        # enclosing FuncInfo for nested defs
+        decos = [d.id if isinstance(d, ast.Name) else d.attr if isinstance(d, ast.Attribute) else None
+                 for d in getattr(node, "decorator_list", [])]
+        self.is_classmethod = "classmethod" in decos
+        self.is_property = "property" in decos or "cached_property" in decos
 
     @property
     def params(self):
@@ -73,6 +77,8 @@ class ClassInfo:
         self.methods: dict[str, FuncInfo] = {}
         self.attrs: dict[str, ast.AST] = {}   # class-level assignments (mangled name -> value expr)
         self.attr_nodes: dict[str, ast.AST] = {}
+        self.fields: list = []         # annotated class-level names in order: (name, default expr | None)  (NamedTuple / dataclass)
+        self.decorators = [ast.unparse(d) for d in node.decorator_list]
         self._mro = None
 
     def mro(self):
@@ -198,8 +204,16 @@ class Model:
                     for a in st.names:
                         m.imports[a.asname or a.name.split(".")[0]] = a.name
                 elif isinstance(st, ast.ImportFrom):
+                    modname = st.module
+                    if st.level:        # relative import: resolve against this module's package
+                        pkg = m.name.split(".")
+                        pkg = pkg[:len(pkg) - st.level] if not m.relpath.endswith("__init__.py") else pkg[:len(pkg) - st.level + 1]
+                        modname = ".".join(pkg + ([st.module] if st.module else []))
                     for a in st.names:
-                        m.from_imports[a.asname or a.name] = (st.module, a.name)
+                        if f"{modname}.{a.name}" in self.modules:          # from . import _util
+                            m.imports[a.asname or a.name] = f"{modname}.{a.name}"
+                        else:
+                            m.from_imports[a.asname or a.name] = (modname, a.name)
                 elif isinstance(st, ast.ClassDef):
                     ci = ClassInfo(m, st)
                     m.classes[st.name] = ci
@@ -219,7 +233,14 @@ class Model:
         for m in self.modules.values():
             for ci in m.classes.values():
                 for be in ci.base_exprs:
-                    ci.bases.append(self.resolve_class_expr(m, be) or ast.unparse(be))
+                    r = self.resolve_class_expr(m, be)
+                    if r is None:      # external base: spelled through the import it comes from (aliases resolved)
+                        r = ast.unparse(be)
+                        if isinstance(be, ast.Name) and be.id in m.from_imports:
+                            r = ".".join(x for x in m.from_imports[be.id] if x)
+                        elif isinstance(be, ast.Attribute) and isinstance(be.value, ast.Name) and be.value.id in m.imports:
+                            r = f"{m.imports[be.value.id]}.{be.attr}"
+                    ci.bases.append(r)
 
     def _load_class(self, ci: ClassInfo):
         for st in ci.node.body:
@@ -238,9 +259,12 @@ class Model:
                             if isinstance(e, ast.Name):
                                 ci.attrs[mangle(e.id, ci.name)] = _tuple_item(st.value, i, len(t.elts))
                                 ci.attr_nodes[mangle(e.id, ci.name)] = st
-            elif isinstance(st, ast.AnnAssign) and isinstance(st.target, ast.Name) and st.value is not None:
-                ci.attrs[mangle(st.target.id, ci.name)] = st.value
-                ci.attr_nodes[mangle(st.target.id, ci.name)] = st
+            elif isinstance(st, ast.AnnAssign) and isinstance(st.target, ast.Name):
+                if "ClassVar" not in ast.unparse(st.annotation):
+                    ci.fields.append((st.target.id, st.value))
+                if st.value is not None:
+                    ci.attrs[mangle(st.target.id, ci.name)] = st.value
+                    ci.attr_nodes[mangle(st.target.id, ci.name)] = st
 
     # ------------------------------------------------------------------
     def resolve_class_expr(self, module: ModuleInfo, expr: ast.AST):
@@ -269,6 +293,11 @@ class Model:
     def cls(self, modname, clsname) -> ClassInfo:
         m = self.module(modname)
         if clsname not in m.classes:
+            # moved to another module of the package and re-exported (`from ._infer import _Type`)
+            if clsname in m.from_imports:
+                mod, nm = m.from_imports[clsname]
+                if mod in self.modules and nm in self.modules[mod].classes:
+                    return self.modules[mod].classes[nm]
             raise AnalysisError(f"anchor vanished: class {clsname} not found in {modname}")
         return m.classes[clsname]
 
@@ -283,15 +312,31 @@ class Model:
 
     # -- private anchors located by role (tolerates renaming of name-mangled helpers) -----------------
     def _private_callees(self, f: FuncInfo, within=None):
-        """Methods of f's class that f calls as self.X(...) / __class__.X(...) / ClassName.X(...), in source order."""
+        """Library functions that f calls, in source order: methods of its class (self.X / __class__.X / ClassName.X),
+        module-level functions of its module or imported from another module of the package (X(...), alias.X(...))."""
         out = []
         ci = f.cls
+        m = f.module
         for node in ast.walk(within if within is not None else f.node):
-            if isinstance(node, ast.Call) and isinstance(node.func, ast.Attribute) and isinstance(node.func.value, ast.Name) \
-                    and node.func.value.id in ("self", "__class__", ci.name, "cls"):
-                g = ci.find_method(mangle(node.func.attr, ci.name))
-                if g is not None and g not in out and not (node.func.attr.startswith("__") and node.func.attr.endswith("__")):
-                    out.append(g)
+            if not isinstance(node, ast.Call):
+                continue
+            g = None
+            fn = node.func
+            if isinstance(fn, ast.Attribute) and isinstance(fn.value, ast.Name):
+                if ci is not None and fn.value.id in ("self", "__class__", ci.name, "cls"):
+                    if not (fn.attr.startswith("__") and fn.attr.endswith("__")):
+                        g = ci.find_method(mangle(fn.attr, ci.name))
+                elif m.imports.get(fn.value.id) in self.modules:
+                    g = self.modules[m.imports[fn.value.id]].functions.get(fn.attr)
+            elif isinstance(fn, ast.Name):
+                if fn.id in m.functions:
+                    g = m.functions[fn.id]
+                elif fn.id in m.from_imports:
+                    mod, nm = m.from_imports[fn.id]
+                    if mod in self.modules:
+                        g = self.modules[mod].functions.get(nm)
+            if g is not None and g not in out:
+                out.append(g)
         return out
 
     def _by_role(self, ci: ClassInfo, meth: str):
@@ -300,8 +345,8 @@ class Model:
             if ci.name == "Pregex" and meth == "__escape":
                 init = get("__init__")
                 for node in ast.walk(init.node):
-                    if isinstance(node, ast.If) and any(isinstance(n, ast.Name) and n.id == "escape" for n in ast.walk(node.test)):
-                        for st in node.body:
+                    if isinstance(node, (ast.If, ast.IfExp)) and any(isinstance(n, ast.Name) and n.id == "escape" for n in ast.walk(node.test)):
+                        for st in (node.body if isinstance(node, ast.If) else [node.body]):
                             c = self._private_callees(init, st)
                             if c:
                                 return c[0]
@@ -312,6 +357,10 @@ class Model:
                         c = self._private_callees(init, node.value)
                         if c:
                             return c[0]
+                esc = self._by_role(ci, "__escape") or get("__escape")
+                cands = [g for g in self._private_callees(init) if g is not esc]
+                if len(cands) == 1:
+                    return cands[0]
             if ci.name == "Pregex" and meth in ("__extract_text", "__iterate_match_objects"):
                 want = "open" if meth == "__extract_text" else "finditer"
                 cands = []
